@@ -62,8 +62,15 @@ def null_glue(env, m, n, side, via='quat_null_space'):
     Ut = env.R.utils
     A = env.qarr('a', (m, n))
     if not env.symbolic:
+        import numpy as np
         N = Ut.quat_null_space(A, side=side)
-        env.holds('null space has the right number of rows', N.shape[0] == (n if side == 'right' else m))
+        dim = n if side == 'right' else m
+        env.holds('null space has the right number of rows', N.shape[0] == dim)
+        sv = np.linalg.svd(Ut.real_expand(A), compute_uv=False)[::4]
+        r = int(np.sum(sv > 1e-10 * sv[0])) if sv[0] > 0 else 0
+        gap = all(abs(x / sv[0] - 1e-10) > 1e-12 for x in sv) if sv[0] > 0 else True
+        if gap:
+            env.holds('null-space basis has dim - rank columns (rank from the singular values of the real embedding)', N.shape[1] == dim - r)
         return
     stub, U, s, V = _svd_stub(env, m, n)
     rt = env.real('rtol')
